@@ -82,7 +82,7 @@ func (e *Engine) boundedBST(prop string, N int) (ru *Unit) {
 		nObl := len(u.obls)
 		u.runInline(st, fr, sig, nil, args)
 		for _, o := range u.obls[nObl:] {
-			o.Name = fmt.Sprintf("bounded/bst/n<=%d/safety", N)
+			o.Name = "bounded/bst/safety"
 		}
 		// layout: out[inorder_j] == in[j] for every leaf of the element type
 		pos := inorderPositions(n)
@@ -94,7 +94,7 @@ func (e *Engine) boundedBST(prop string, N int) (ru *Unit) {
 				eqs = append(eqs, Eq(Select(Select(arr, outBase), IntLit(int64(p))), Select(Select(arr, inBase), IntLit(int64(j)))))
 			}
 		}
-		u.oblige(st, fmt.Sprintf("n<=%d/layout", N), "bounded", []string{prop}, And(eqs...), fi.decl.Pos(), fmt.Sprintf("complete-BST layout for n=%d", n))
+		u.oblige(st, "layout", "bounded", []string{prop}, And(eqs...), fi.decl.Pos(), fmt.Sprintf("complete-BST layout for n=%d", n))
 	}
 	u.boundedNote = fmt.Sprintf("bst layout and out[] index safety: bounded, every list length n <= %d (symbolic elements, recursion unrolled)", N)
 	return u
